@@ -122,15 +122,26 @@ impl ProcfsBase {
             .into_iter()
             // Return the first option that exists in proc_root.
             .find(|base| {
+                // NOTE: This probe must not go through the syscalls::* wrappers.
+                // Their errors pretty-print the dirfd with
+                // as_unsafe_path_unchecked(), which calls into_path() again, so
+                // if none of the candidates exist (/proc is not mounted, or has
+                // been over-mounted) the recursion would never end.
+                let flags = AtFlags::NO_AUTOMOUNT | AtFlags::SYMLINK_NOFOLLOW;
                 match proc_root {
-                    Some(root) => syscalls::fstatat(root, base),
-                    None => {
-                        syscalls::fstatat(syscalls::AT_FDCWD, PathBuf::from("/proc").join(base))
-                    }
+                    Some(root) => rustix_fs::statat(root, base, flags),
+                    None => rustix_fs::statat(
+                        rustix_fs::CWD,
+                        PathBuf::from("/proc").join(base),
+                        flags,
+                    ),
                 }
                 .is_ok()
             })
-            .expect("at least one candidate /proc/thread-self path should work"),
+            // If there is no usable candidate at all, any operation through the
+            // returned path is going to fail with a regular error (which is
+            // what we want, rather than aborting the program).
+            .unwrap_or_else(|| "thread-self".into()),
         }
     }
     // TODO: Add into_raw_path() that doesn't use symlinks?
